@@ -1,1 +1,124 @@
-import Simfile.Spec.Timeline
+/-
+C13 — `TimingEngine.hittable` and `time_notes` against the declarative timeline: a beat is unhittable
+exactly when it lies inside the union of the warp segments and carries no stop and no delay.
+Property theorems only; helper lemmas live in Simfile/Lemmas/EngineHit.lean (and the C11 library).
+The domain hypothesis is `Simfile.C11.Dom` (Simfile/Lemmas/EngineBasic.lean), shown satisfiable below.
+-/
+import Simfile.Lemmas.EngineHit
+import Simfile.Props.C11
+namespace Simfile.C13
+open Simfile
+
+/-- 1. the engine's `hittable` is the declarative one, for every rational beat (off-grid and negative
+beats included) -/
+theorem hittable_spec (td : TimingData) (h : C11.Dom td) (b : Rat) :
+    hittable td b = Spec.hittableSpec td b :=
+  hittable_eq_spec h b
+
+/-- 2. `time_notes` is the declarative `timeNotesSpec`, for each of the three options -/
+theorem time_notes_spec (td : TimingData) (h : C11.Dom td) (opt : Unhittable) (notes : List Note) :
+    timeNotes td opt notes = Spec.timeNotesSpec td opt notes := by
+  unfold timeNotes Spec.timeNotesSpec
+  dsimp only
+  congr 1
+  funext n
+  have h1 : (mkEngine td).hittable n.beat = Spec.hittableSpec td n.beat := hittable_spec td h n.beat
+  have h2 : (mkEngine td).timeAt n.beat = Spec.timeSpec td n.beat .stop :=
+    C11.time_refines_spec td h n.beat .stop
+  simp only [h1, h2]
+  cases Spec.hittableSpec td n.beat <;> cases opt <;> simp
+
+/-- 3. with `keepNote` every note is kept, unchanged, at its declarative time -/
+theorem time_notes_keep (td : TimingData) (h : C11.Dom td) (notes : List Note) :
+    timeNotes td .keepNote notes = notes.map fun n => (Spec.timeSpec td n.beat .stop, n) := by
+  rw [time_notes_spec td h, Spec.timeNotesSpec, ← List.filterMap_eq_map]
+  congr 1
+  funext n
+  cases Spec.hittableSpec td n.beat <;> simp
+
+/-- 4. the output, stripped of times and note types, is a sublist of the input: nothing is reordered,
+duplicated or invented, whatever the option -/
+theorem time_notes_sublist (td : TimingData) (_h : C11.Dom td) (opt : Unhittable) (notes : List Note) :
+    List.Sublist
+      ((timeNotes td opt notes).map (fun r => (r.2.beat, r.2.column, r.2.player, r.2.keysound)))
+      (notes.map (fun n => (n.beat, n.column, n.player, n.keysound))) := by
+  unfold timeNotes
+  apply filterMap_map_sublist
+  intro a r hr
+  split_ifs at hr <;> cases hr <;> rfl
+
+/-- 5. an output note is an input note, or an input note whose type alone was changed to FAKE -/
+theorem fake_differs_in_type_only (td : TimingData) (_h : C11.Dom td) (opt : Unhittable)
+    (notes : List Note) :
+    ∀ r ∈ timeNotes td opt notes, ∃ n ∈ notes, r.2 = n ∨ r.2 = { n with ntype := cFAKE } := by
+  intro r hr
+  unfold timeNotes at hr
+  obtain ⟨n, hn, hf⟩ := List.mem_filterMap.1 hr
+  refine ⟨n, hn, ?_⟩
+  split_ifs at hf <;> cases hf
+  · exact Or.inl rfl
+  · exact Or.inr rfl
+
+/-! ### non-vacuity: a stop on a delay inside a warp that starts on beat 0, with a BPM change inside -/
+
+/-- the sample timing data -/
+def sample : TimingData := {
+    bpms := [(0, 120), (1, 240)]
+    stops := [(1/2, 1/4)]
+    delays := [(1/2, 1/8)]
+    warps := [(0, 2)]
+    offset := 1/100 }
+
+theorem sample_dom : C11.Dom sample := by
+  have g0 : onGrid 0 := ⟨0, by norm_num⟩
+  have g1 : onGrid 1 := ⟨48, by rw [C14.ticks_is_48]; norm_num⟩
+  have g2 : onGrid (1/2) := ⟨24, by rw [C14.ticks_is_48]; norm_num⟩
+  have hr : roundToTick 2 = 2 := by
+    have := C14.round_idem 96
+    norm_num at this
+    exact this
+  unfold sample
+  constructor
+  · simp
+  · simp
+  · intro e he; simp at he; rcases he with rfl | rfl <;> norm_num
+  · simp
+  · intro e he; simp at he; rcases he with rfl | rfl
+    · exact ⟨le_refl _, g0⟩
+    · exact ⟨by norm_num, g1⟩
+  · intro e he; simp at he; subst he; norm_num
+  · simp
+  · intro e he; simp at he; subst he; exact ⟨by norm_num, by simpa using g2⟩
+  · intro e he; simp at he; subst he; norm_num
+  · simp
+  · intro e he; simp at he; subst he; exact ⟨by norm_num, by simpa using g2⟩
+  · intro e he; simp at he; subst he; rw [hr]; norm_num
+  · simp
+  · intro e he; simp at he; subst he; exact ⟨le_refl _, g0⟩
+
+example : C11.Dom sample := sample_dom
+
+/-- inside the warp the beat with the stop and the delay is hittable and its neighbours (on and off the
+grid) are not; from the end of the warp on and on negative beats everything is hittable -/
+example : hittable sample (1/2) = true ∧ hittable sample (1/4) = false ∧ hittable sample (3/2) = false ∧
+    hittable sample (1/7) = false ∧ hittable sample 2 = true ∧ hittable sample (-1) = true := by
+  simp only [hittable_spec sample sample_dom]
+  decide +kernel
+
+/-- the same beat without the stop and the delay is not hittable -/
+example : hittable { sample with stops := [], delays := [] } (1/2) = false := by
+  have hd : C11.Dom { sample with stops := [], delays := [] } :=
+    { sample_dom with
+      stops_pos := by simp, stops_sorted := by simp, stops_grid := by simp,
+      delays_pos := by simp, delays_sorted := by simp, delays_grid := by simp }
+  rw [hittable_spec _ hd]
+  decide +kernel
+
+/-- `time_notes` on that input: the tap inside the warp becomes a fake, the mine there is dropped -/
+example : (timeNotes sample .tapToFake
+      [⟨1/4, 0, cTAP, 0, none⟩, ⟨1/4, 1, cMINE, 0, none⟩, ⟨1/2, 2, cTAP, 0, none⟩]).map (·.2) =
+    [⟨1/4, 0, cFAKE, 0, none⟩, ⟨1/2, 2, cTAP, 0, none⟩] := by
+  rw [time_notes_spec sample sample_dom]
+  decide +kernel
+
+end Simfile.C13
